@@ -56,6 +56,16 @@ fn main() {
         }
         "saved" => engine::saved(prop, tier_of(&args[3])),
         "replay" => std::process::exit(engine::replay(prop, &args[3])),
+        "fuzzseed" => {
+            // `vcheck fuzzseed <ID> <dir>`: a few valid inputs as libFuzzer seed corpus
+            let dir = std::path::Path::new(&args[3]);
+            std::fs::create_dir_all(dir).unwrap();
+            let (la, lb) = prop.tape_lens(Tier::Quick);
+            for s in 0..8u64 {
+                let input = engine::Input { a: vlab::tape::tape_from_seed(seed.wrapping_mul(31) + s, la.min(600)), b: vlab::tape::tape_from_seed(s ^ 0xF00D, lb.min(200)) };
+                std::fs::write(dir.join(format!("seed{s}")), engine::input_to_bytes(&input)).unwrap();
+            }
+        }
         "dump" => {
             // `vcheck dump <ID> <seed>`: the input generated from a seed, with its decoded case.
             let s: u64 = args[3].parse().unwrap();
